@@ -535,6 +535,8 @@ func sysName(trap uintptr) string {
 		return "mkdirat"
 	case syscall.SYS_MKNODAT:
 		return "mknodat"
+	case syscall.SYS_NEWFSTATAT:
+		return "newfstatat"
 	case syscall.SYS_STATFS:
 		return "statfs"
 	case syscall.SYS_PIVOT_ROOT:
@@ -871,6 +873,13 @@ func (k *simk) exec(a *kactor, req *sysreq, fault *kfault) (ret uintptr, errno s
 	case syscall.SYS_MKDIRAT, syscall.SYS_MKNODAT:
 		setArgs("%q", cstr(A[1]))
 		p.mountLog = append(p.mountLog, name+" "+cstr(A[1]))
+		return done(0, 0)
+	case syscall.SYS_NEWFSTATAT:
+		// what sits at a mount target that exists already: a directory or a regular file (nothing is planted in
+		// the stub's file system; planted links are world K's, C05)
+		setArgs("%q", cstr(A[1]))
+		fst := (*syscall.Stat_t)(unsafe.Pointer(A[2]))
+		*fst = syscall.Stat_t{Mode: syscall.S_IFDIR | 0755}
 		return done(0, 0)
 	case syscall.SYS_STATFS:
 		setArgs("%q", cstr(A[0]))
